@@ -56,6 +56,7 @@ VK_MAIN()
         float g = vin.f[0]; VK_ASSUME(g == g);
         int rc = aln_param_init(&ap, vin.b[0] & 3, 1, vin.b[1] & 7, g, -1.0f, -1.0f);
         if (rc == OK) aln_param_free(ap);
+        else VK_ASSERT(ap == NULL, "C16: a rejected aln_param_init hands nothing to the caller (kalign_run's error path frees whatever it was given)");
 #elif VK_MODE == 4
         static char bufs[VK_N][VK_L + 1]; char *seqs[VK_N]; int lens[VK_N];
         for (int i = 0; i < VK_N; i++) { for (int k = 0; k < VK_L; k++) { bufs[i][k] = (char)vin.b[i * VK_L + k]; VK_ASSUME(vin.b[i * VK_L + k] != 0); } bufs[i][VK_L] = 0; seqs[i] = bufs[i]; lens[i] = VK_L; }
